@@ -17,6 +17,7 @@ func init() {
 		e.RMapOrder(func(m mapRange) bool { return m.fd.Name.Name == "updateImports" })
 		e.RUniqueNames()
 		e.RNameSource()
+		e.RSharedState()
 		e.RAddsEveryMissing()
 		e.RDeadAppend()
 		e.RAliasFlow()
@@ -31,6 +32,7 @@ func init() {
 	}, func(e *Env) {
 		e.RPureUpdateImports()
 		e.RNameSource()
+		e.RSharedState()
 		e.RQuietRearrange()
 		e.RPureRestore()
 		e.RDiscovery()
